@@ -23,6 +23,7 @@ EXPLANATION = (
     " (R4) the reconstructed walk is not filtered away afterwards: the remove-empty filters of the cyclic models decide emptiness on the internal walk (C01.R5). "
     "NOT decided: that one single s-t walk results for every Eulerian multigraph (Hierholzer's correctness), connectivity assumptions."
     ' (R1, hunt 4) solver values are looked up under the node objects themselves, not under str() of them.'
+    ' (R1, benign 4) the residual graph may be filled by an append loop, extend(generator over range(m)) or extend([v] * m).'
 )
 DECIDED = ["no edge dropped, none invented: linear use of residual edges in the two trail loops",
            "multiplicities rounded and keyed by the same edge and layer", "splice shape", "all-zero layer yields an empty walk"]
